@@ -119,6 +119,7 @@ func constVal(info *types.Info, e ast.Expr) string {
 
 func c08(r *core.Report) {
 	lookupFolding(r, "C08.lookup")
+	requiredExemption(r, "C08.reqexempt")
 	c08AsResponse(r)
 	p := r.Prog
 	info := p.Pkg("openapi3filter").TypesInfo
